@@ -188,15 +188,20 @@ def run(res, tier, seed):
     base = base_stylesheets(d)
     compose(d, base, "90-all.xsl")
     sheets = base + ["90-all.xsl"]
-    sources = ["plain.xml", "ids.xml"]
-    threads, iters = (4, 2) if quick else (16, 3)
+    small = ["plain.xml", "ids.xml"]
     rnd = random.Random(seed)
-    if not quick:
-        for n, (items, chapters) in enumerate(((300, 12), (900, 30))):
+    # threads x transformations per thread.  xerces-parse runs serially, where more threads add nothing, and every text
+    # read of it faults (Xerces re-terminates its buffers): 2 x 1 on the small sources
+    if quick:
+        plan = {"native": (4, 2, small), "xerces-wrapper": (4, 2, small), "xerces-parse": (2, 1, small)}
+    else:
+        mid, big = [], []
+        for n, (items, chapters, bucket) in enumerate(((300, 12, mid), (900, 30, big))):
             for dtd in (False, True):
                 name = "gen%d-%s.xml" % (n, "ids" if dtd else "plain")
                 open(os.path.join(d, name), "w", encoding="utf8").write(make_source(items, chapters, dtd, seed=seed + n))
-                sources.append(name)
+                bucket.append(name)
+        plan = {"native": (16, 3, small + mid + big), "xerces-wrapper": (8, 2, small + mid), "xerces-parse": (2, 1, small)}
         for i in range(200 - len(sheets)):
             pick = rnd.sample(base, rnd.randint(2, 6))
             name = "gen-%03d.xsl" % i
@@ -204,12 +209,11 @@ def run(res, tier, seed):
             sheets.append(name)
     cases = []
     for xsl in sheets:
-        if xsl.startswith("gen-"):
-            srcs = rnd.sample(sources, 2)
-        else:
-            srcs = sources[:2] if quick else sources[:4]
-        for xml in srcs:
-            for kind, sched in KINDS:
+        for kind, sched in KINDS:
+            threads, iters, srcs = plan[kind]
+            if xsl.startswith("gen-"):
+                srcs = rnd.sample(srcs, 2 if len(srcs) > 2 else 1)
+            for xml in srcs:
                 cases.append((kind, sched, xsl, xml, threads, iters))
     exe = vlib.build_harness("c07", libs=LIBS)
     workers = max(2, min(8, vlib.NCPU // (2 if quick else 4)))
@@ -298,11 +302,10 @@ def run(res, tier, seed):
                        "parsed source built by another transformer inside a write-protected arena; stylesheets = one per lazily initialised facility, "
                        "their composition%s; non-trivial = the sequential reference succeeded with >= 100 bytes of output and all thread results were "
                        "recorded; distinct by (source kind, source document, hash of the sequential output)" % (
-                           threads, iters, "" if quick else ", 186 seeded compositions of 2-6 facilities (VERIF_SEED) and four generated larger sources"))
+                           plan["native"][0], plan["native"][1], "" if quick else ", 186 seeded compositions of 2-6 facilities (VERIF_SEED) and four generated larger sources"))
     res.notes["facilities_touched"] = sorted(facs)
     res.notes["cases_by_kind"] = {k: sum(1 for c in cases if c[0] == k) for k, _ in KINDS}
-    res.notes["threads"] = threads
-    res.notes["transformations_per_thread"] = iters
+    res.notes["threads_x_transformations"] = {k: "%d x %d" % (v[0], v[1]) for k, v in plan.items()}
     res.notes["store_observation"] = stats
     for ci in (0, len(cases) // 2, len(cases) - 1):
         evs = results[ci][1]
